@@ -179,4 +179,183 @@ theorem runEvents_invisible {σ τ ε Ev : Type} (π : σ → τ)
             injection ha with ha
             exact ih u v ha
 
+/-! ### emission order of `Track` (C12's model) -/
+
+open Radix.Track Radix.KV Radix.SubstateDb
+
+theorem iset_insert_cons_ne {K : Type} [DecidableEq K] (k' k : K) (l : List K) (h : k ≠ k') :
+    ISet.insert (k' :: l) k = k' :: ISet.insert l k := by
+  unfold ISet.insert
+  by_cases hm : k ∈ l
+  · simp [hm]
+  · simp [hm, h]
+
+theorem iset_insert_idem {K : Type} [DecidableEq K] (l : List K) (k : K) :
+    ISet.insert (ISet.insert l k) k = ISet.insert l k := by
+  unfold ISet.insert
+  by_cases hm : k ∈ l <;> simp [hm]
+
+theorem keys_alter {K V : Type} [DecidableEq K] (m : List (K × V)) (k : K) (d : V) (f : V → V) :
+    (IMap.alter m k d f).map (·.1) = ISet.insert (m.map (·.1)) k := by
+  induction m with
+  | nil => simp [IMap.alter, ISet.insert]
+  | cons kv t ih =>
+    obtain ⟨k', v'⟩ := kv
+    simp only [IMap.alter]
+    by_cases h : k = k'
+    · subst h; simp [ISet.insert]
+    · simp only [h, if_false, List.map_cons, ih]
+      rw [iset_insert_cons_ne k' k _ h]
+
+theorem keys_set {K V : Type} [DecidableEq K] (m : List (K × V)) (k : K) (v : V) :
+    (IMap.set m k v).map (·.1) = ISet.insert (m.map (·.1)) k := by
+  induction m with
+  | nil => simp [IMap.set, ISet.insert]
+  | cons kv t ih =>
+    obtain ⟨k', v'⟩ := kv
+    simp only [IMap.set]
+    by_cases h : k = k'
+    · subst h; simp [ISet.insert]
+    · simp only [h, if_false, List.map_cons, ih]
+      rw [iset_insert_cons_ne k' k _ h]
+
+/-- `b` extends `a`: same keys in the same places, possibly more at the end -/
+def Ext (a b : Nodes) : Prop := ∃ s, b.map (·.1) = a.map (·.1) ++ s
+
+theorem Ext.refl (a : Nodes) : Ext a a := ⟨[], by simp⟩
+theorem Ext.trans {a b c : Nodes} (h1 : Ext a b) (h2 : Ext b c) : Ext a c := by
+  obtain ⟨s1, e1⟩ := h1
+  obtain ⟨s2, e2⟩ := h2
+  exact ⟨s1 ++ s2, by rw [e2, e1, List.append_assoc]⟩
+
+theorem iset_insert_ext {K : Type} [DecidableEq K] (l : List K) (k : K) : ∃ s, ISet.insert l k = l ++ s := by
+  unfold ISet.insert
+  by_cases hm : k ∈ l
+  · exact ⟨[], by simp [hm]⟩
+  · exact ⟨[k], by simp [hm]⟩
+
+theorem ext_alterPart (nodes : Nodes) (n p : Nat) (f : TPart → TPart) : Ext nodes (alterPart nodes n p f) := by
+  unfold alterPart Ext
+  rw [keys_alter]
+  exact iset_insert_ext _ _
+
+theorem ext_putIn (nodes : Nodes) (n p k : Nat) (tv : TV) : Ext nodes (putIn nodes n p k tv) :=
+  ext_alterPart nodes n p _
+
+theorem ext_ensurePart (nodes : Nodes) (n p : Nat) : Ext nodes (ensurePart nodes n p) :=
+  ext_alterPart nodes n p _
+
+theorem ext_set (nodes : Nodes) (n : Nat) (nd : TNode) : Ext nodes (IMap.set nodes n nd) := by
+  unfold Ext
+  rw [keys_set]
+  exact iset_insert_ext _ _
+
+theorem ext_getTracked (t : Track) (n p k : Nat) : Ext t.nodes (getTracked t n p k).1.nodes := by
+  unfold getTracked
+  split
+  · exact Ext.refl _
+  · exact ext_putIn _ _ _ _ _
+
+theorem ext_drain (t : Track) (n p limit : Nat) : Ext t.nodes (drainSubstates t n p limit).1.nodes := by
+  unfold drainSubstates
+  dsimp only
+  repeat' (first
+    | exact Ext.refl _
+    | exact ext_alterPart _ _ _ _
+    | exact Ext.trans (ext_alterPart _ _ _ _) (ext_alterPart _ _ _ _)
+    | split)
+
+theorem step_nodes_append_only (t : Track) (op : Track.Op) (hop : op ≠ .revert) :
+    ∃ suffix, (Track.step t op).1.nodes.map (·.1) = t.nodes.map (·.1) ++ suffix := by
+  show Ext t.nodes (Track.step t op).1.nodes
+  cases op with
+  | get n p k => exact ext_getTracked t n p k
+  | set n p k v =>
+    simp only [Track.step, setSubstate]
+    split <;> exact ext_putIn _ _ _ _ _
+  | remove n p k =>
+    simp only [Track.step, removeSubstate]
+    exact Ext.trans (ext_getTracked t n p k) (ext_putIn _ _ _ _ _)
+  | create n subs => exact ext_set _ _ _
+  | scanKeys n p l =>
+    simp only [Track.step, scanKeys]
+    split
+    · exact Ext.refl _
+    · exact ext_ensurePart _ _ _
+  | drain n p l => exact ext_drain t n p l
+  | scanSorted n p l => exact ext_ensurePart _ _ _
+  | forceWrite n p k =>
+    simp only [Track.step]
+    cases h : forceWrite t n p k with
+    | none => exact Ext.refl _
+    | some t' =>
+      unfold forceWrite at h
+      split at h
+      · simp at h
+      · simp at h; subst h; exact Ext.refl _
+  | deletePartition n p => exact Ext.refl _
+  | revert => exact absurd rfl hop
+
+/-- a tracked node contributes to the state updates iff one of its partitions has a non-empty update list -/
+def nodeHasUpdates (nn : Nat × TNode) : Bool :=
+  nn.2.parts.any (fun pp => !(partUpdates pp.2).isEmpty)
+
+theorem keys_suAlter (su : DbUpdates) (n p : Nat) (f : PUpd → PUpd) :
+    (suAlter su n p f).map (·.1) = ISet.insert (su.map (·.1)) n := by
+  unfold suAlter
+  exact keys_alter _ _ _ _
+
+theorem keys_suOfDeleted (dl : List (Nat × Nat)) : ∀ su : DbUpdates,
+    (suOfDeleted su dl).map (·.1) = (dl.map (·.1)).foldl ISet.insert (su.map (·.1)) := by
+  induction dl with
+  | nil => intro su; simp [suOfDeleted]
+  | cons np rest ih =>
+    intro su
+    obtain ⟨n, p⟩ := np
+    simp only [suOfDeleted, List.map_cons, List.foldl_cons]
+    rw [ih, keys_suAlter]
+
+theorem keys_suOfParts (n : Nat) (parts : List (Nat × TPart)) : ∀ su : DbUpdates,
+    (suOfParts su n parts).map (·.1) =
+      bif parts.any (fun pp => !(partUpdates pp.2).isEmpty) then ISet.insert (su.map (·.1)) n
+      else su.map (·.1) := by
+  induction parts with
+  | nil => intro su; simp [suOfParts]
+  | cons pp rest ih =>
+    intro su
+    obtain ⟨p, part⟩ := pp
+    simp only [suOfParts]
+    by_cases he : (partUpdates part).isEmpty = true
+    · rw [if_pos he, ih]
+      simp [he]
+    · rw [if_neg he, ih, keys_suAlter]
+      have he' : (partUpdates part).isEmpty = false := by simpa using he
+      simp [he', iset_insert_idem]
+
+theorem keys_suOfNodes (nodes : Nodes) : ∀ su : DbUpdates,
+    (suOfNodes su nodes).map (·.1) =
+      ((nodes.filter nodeHasUpdates).map (·.1)).foldl ISet.insert (su.map (·.1)) := by
+  induction nodes with
+  | nil => intro su; simp [suOfNodes]
+  | cons nn rest ih =>
+    intro su
+    obtain ⟨n, nd⟩ := nn
+    simp only [suOfNodes]
+    rw [ih, keys_suOfParts]
+    by_cases hu : nodeHasUpdates (n, nd) = true
+    · have hu' : nd.parts.any (fun pp => !(partUpdates pp.2).isEmpty) = true := hu
+      simp [hu, hu']
+    · have hu' : nd.parts.any (fun pp => !(partUpdates pp.2).isEmpty) = false := by
+        simpa [nodeHasUpdates] using hu
+      have hu2 : nodeHasUpdates (n, nd) = false := by simpa using hu
+      simp [hu2, hu']
+
+theorem toStateUpdates_keys (t : Track) :
+    (Track.toStateUpdates t).2.map (·.1) =
+      ((t.deleted.map (·.1)) ++ ((t.nodes.filter nodeHasUpdates).map (·.1))).foldl ISet.insert [] := by
+  unfold Track.toStateUpdates
+  simp only
+  rw [keys_suOfNodes, keys_suOfDeleted, List.foldl_append]
+  simp
+
 end Radix.C01
